@@ -11,7 +11,8 @@ use serde::{Deserialize, Serialize};
 pub const RULE: &str = "number lists of length 1..50 (small integers, fractions, negatives, duplicates, +-0, +-inf, magnitudes up to 1e308 and down to subnormals; no NaN) with two percentile ranks p1<=p2 in [0,100] (0, 50, 100 and random) and a permutation; every aggregate is evaluated as f(list), f(...list) and f(x1, .., xn) (and f([x]) vs f(x)) and compared with Rust reference computations on the same doubles. Non-trivial = length >= 2 with at least two distinct elements; distinct by the list's bit patterns.";
 pub const ASSUMPTIONS: &[&str] = &[
     "sum / prod / avg are held to a rounding bound (n*eps*sum|x|, resp. relative n*eps) only where no partial result over- or underflows; otherwise only the result class is checked, because the order of operations then legitimately matters",
-    "median of an even-length list must equal (a+b)/2 or a/2+b/2 computed in IEEE doubles on the two middle order statistics",
+    "median of an even-length list must lie between the two middle order statistics (inclusive) and equal (a+b)/2, a/2+b/2 or a+(b-a)/2 computed in IEEE doubles; with an infinite middle value it is that infinity (NaN for -inf and +inf)",
+    "prod is additionally held to the facts that do not depend on the order of multiplication: NaN with a zero and an infinity among the factors, otherwise a zero / infinity / finite value whose sign is the parity of the negative factors (only when the finite non-zero factors are such that no partial product can over- or underflow: sum of |log2|x|| < 1000)",
 ];
 
 #[derive(Clone, Debug, Serialize, Deserialize)]
@@ -199,6 +200,28 @@ impl Check for Aggregates {
                             fail!("prod:definition", "prod({}) = {:e}, reference {:e} (tolerance {:e})", list.to_source(false), got, r.prod, tol);
                         }
                     }
+                    // facts about an IEEE product that hold in every order of multiplication
+                    let zero = xs.iter().any(|x| *x == 0.0);
+                    let inf = xs.iter().any(|x| x.is_infinite());
+                    let negative = xs.iter().filter(|x| x.is_sign_negative()).count() % 2 == 1;
+                    // ... as long as no partial product of the finite non-zero factors can over- or underflow
+                    let spread: f64 = xs.iter().filter(|x| x.is_finite() && **x != 0.0).map(|x| x.abs().log2().abs()).sum();
+                    let class_ok = spread >= 1000.0 || match (zero, inf) {
+                        (true, true) => got.is_nan(),
+                        (true, false) => got == 0.0 && got.is_sign_negative() == negative,
+                        (false, true) => got.is_infinite() && got.is_sign_negative() == negative,
+                        (false, false) => !got.is_nan() && (got == 0.0 || got.is_sign_negative() == negative),
+                    };
+                    if !class_ok {
+                        fail!(
+                            format!("prod:class:{}", match (zero, inf) { (true, true) => "zero-and-infinity", (true, false) => "signed-zero", (false, true) => "signed-infinity", _ => "sign" }),
+                            "prod({}) = {:e}: with {} the product is {} in every order of multiplication",
+                            list.to_source(false),
+                            got,
+                            match (zero, inf) { (true, true) => "a zero and an infinity among the factors", (true, false) => "a zero among the factors", (false, true) => "an infinity among the factors", _ => "these signs" },
+                            match (zero, inf) { (true, true) => "NaN".to_string(), (true, false) => format!("{}0", if negative { "-" } else { "+" }), (false, true) => format!("{}inf", if negative { "-" } else { "+" }), _ => format!("{}", if negative { "negative or -0" } else { "positive or +0" }) }
+                        );
+                    }
                 }
                 "min" | "max" => {
                     let want = if agg == "min" { r.min } else { r.max };
@@ -211,8 +234,18 @@ impl Check for Aggregates {
                     let ok = if n % 2 == 1 {
                         got == s[n / 2]
                     } else {
+                        // the mean of the two middle order statistics: between them (any rounding of
+                        // a value between two doubles stays between them) and one of the usual
+                        // one-rounding ways to compute it
                         let (a, b) = (s[n / 2 - 1], s[n / 2]);
-                        bits_eq(got, (a + b) / 2.0) || bits_eq(got, a / 2.0 + b / 2.0) || got == (a + b) / 2.0
+                        let between = a <= got && got <= b;
+                        let formula = bits_eq(got, (a + b) / 2.0) || bits_eq(got, a / 2.0 + b / 2.0) || got == (a + b) / 2.0 || bits_eq(got, a + (b - a) / 2.0);
+                        if a.is_infinite() || b.is_infinite() {
+                            // an infinite middle value: the mean is that infinity, or NaN for -inf and +inf
+                            if a == b { got == a } else if a.is_infinite() && b.is_infinite() { got.is_nan() } else { got == if a.is_infinite() { a } else { b } }
+                        } else {
+                            between && formula
+                        }
                     };
                     if !ok {
                         fail!(
